@@ -42,7 +42,12 @@ class CTRLInterface(UDPLink):
 
 		# Attempt to parse a command
 		request = self.prepare_req(data)
-		rc = self.parse_cmd(request)
+		try:
+			rc = self.parse_cmd(request)
+		except ValueError as e:
+			# e.g. int() applied to a non-numeric argument
+			log.error("Failed to handle TRXC command '%s': %s" % (request[0], e))
+			rc = -1
 
 		if type(rc) is tuple:
 			self.send_response(request, remote, rc[0], rc[1])
